@@ -173,7 +173,12 @@ func gate(tier string) map[string]int {
 		"disc_established_disc_reason_out_of_table":      40,
 		"disc_instead_of_hello_disc_reason_out_of_table": 40,
 		"disc_established_disc_odd_payload":              60,
-		"disc_reason_prehello_presented":                 400,
+		// acceptable hellos with hostile client names
+		"server_hello_name_over_80_bytes": 40,
+		"server_hello_name_multibyte":     40,
+		"server_hello_name_invalid_utf8":  8,
+		"server_hello_name_admitted":      40,
+		"disc_reason_prehello_presented":  400,
 	}
 }
 
